@@ -69,6 +69,11 @@ def gen_case(rng, params, idx):
                                            ["U", ["CC", "evenname"], "int"], "Hook", "Hook"])
     late = {"mid": 50, "pos": [{"n": f"a{j}", "t": rng.choice(names + ["int", "object"])} for j in range(spec["npos"])],
             "kw": [], "prio": rng.choice([0, 1]), "kind": rng.choice(["leaf", "next"])}
+    if scn in ("first_call", "cache_miss", "next_chain", "hook_raises") and rng.random() < 0.5:
+        # a top-priority wrapper that every call enters first and that delegates with *other* arguments when the
+        # probe supplies them: later probes then reach the faulted types through call_next before any direct call
+        spec["methods"].append({"mid": 40, "pos": [{"n": f"a{j}", "t": "object"} for j in range(spec["npos"])], "kw": [],
+                                "prio": 2, "kind": "nextalt"})
     vals = gen.values_for(hier)
     cg = gen.CallGen(spec, vals)
     ops = [cg.call(rng, p_kw=0) for _ in range(3)]
@@ -83,7 +88,7 @@ def gen_case(rng, params, idx):
     # faulted call itself
     via = [dict(ops[0], alt=list(ops[1]["pos"])), dict(ops[2], alt=list(ops[1]["pos"])), dict(ops[2], alt=list(ops[0]["pos"]))]
     spec.update(scenario=scn, late=late, probes=via + [cg.call(rng, p_kw=0) for _ in range(4)] + ops[:2],
-                op_calls=ops, stride=params["stride"], badkind=rng.choice(["names", "callnext", "nosource"]))
+                op_calls=ops, stride=params["stride"], offset=idx // len(SCENARIOS), badkind=rng.choice(["names", "callnext", "nosource"]))
     return spec
 
 
@@ -176,7 +181,13 @@ def _injected(spec, env, res, ref, behaviours):
     N = INJECTOR.count(safe(op))
     prog.close()
     res.count("crash_points_enumerated", N)
-    for n in range(1, N + 1, spec["stride"]):
+    # every stride-th line (offset varies with the case), plus *every* line of the functions that store to attributes,
+    # items or globals - the windows in which a half-written table can be left behind
+    points = set(range(1 + spec.get("offset", 0) % spec["stride"], N + 1, spec["stride"]))
+    if spec["stride"] > 1:
+        points |= set(INJECTOR.writer_lines[:: 2 if scn in ("first_call", "rebuild") else 1])
+    res.count("crash_points_in_state_writing_functions", len(INJECTOR.writer_lines))
+    for n in sorted(points):
         prog, op = _setup(spec, env, scn)
         prog.vf.clear()
         st = INJECTOR.run(safe(op), n)
